@@ -152,6 +152,13 @@ func liveCases(o *hlib.Out, g *gen) {
 			liveSession(o, g, v, lv, 0)
 		}
 	}
+	// Session.ExecuteBatch around the [short] limit of the statement count
+	liveBatchLimit(o, 4, []int{65535, 65536, 65537})
+	if o.Scale > 1 || o.Search {
+		for _, v := range []byte{2, 3, 5} {
+			liveBatchLimit(o, v, []int{65534, 65535, 65536, 65537, 131072})
+		}
+	}
 	if o.Scale > 1 || o.Search {
 		// the [short] count boundary on live traffic: 65535 bound values, 65535 batch statements
 		for _, v := range []byte{2, 4} {
@@ -598,5 +605,89 @@ func liveSession(o *hlib.Out, g *gen, v byte, lv liveVariant, bigCount int) {
 	}
 	if err == nil && registered != 1 {
 		o.Violate(-1, "live-handshake", "", fmt.Sprintf("v%d: %d REGISTER frames (want 1, on the control connection)", v, registered), nil)
+	}
+}
+
+// liveBatchLimit: batches of 65535 / 65536 / 65537 entries through Session.ExecuteBatch on a live session.
+// The statement count of BATCH is a [short]: 65535 entries must go out (and decode to 65535 statements),
+// more must be refused with ErrTooManyStmts before anything is written (session.go, BatchSizeMaximum).
+func liveBatchLimit(o *hlib.Out, v byte, sizes []int) {
+	n := node.NewNet()
+	defer n.Close()
+	nd := n.AddNode("10.0.0.1:9042")
+	cfg := gocql.NewCluster("10.0.0.1")
+	cfg.Dialer = n.Dialer()
+	cfg.ProtoVersion = int(v)
+	cfg.Timeout = 20 * time.Second
+	cfg.ConnectTimeout = 10 * time.Second
+	cfg.NumConns = 1
+	cfg.DefaultTimestamp = false
+	cfg.Logger = log.New(io.Discard, "", 0)
+	cfg.DisableSkipMetadata = v == 1
+	s, err := gocql.NewSession(*cfg)
+	if err != nil {
+		o.Violate(-1, "live-session", "", fmt.Sprintf("NewSession(v%d) for the batch-size probe failed: %v", v, err), nil)
+		return
+	}
+	defer s.Close()
+	kind := fmt.Sprintf("live-batch-limit/v%d", v)
+	del := "DELETE FROM ks.t WHERE k = 1"
+	batchFrames := func() [][]byte {
+		var fs [][]byte
+		for _, rq := range nd.Requests() {
+			if rq.Header.Opcode == 13 {
+				fs = append(fs, rq.Raw)
+			}
+		}
+		return fs
+	}
+	for _, size := range sizes {
+		before := len(batchFrames())
+		b := s.NewBatch(gocql.UnloggedBatch)
+		b.Cons = gocql.One
+		for i := 0; i < size; i++ {
+			b.Query(del)
+		}
+		err := s.ExecuteBatch(b)
+		refused := err == gocql.ErrTooManyStmts
+		frames := batchFrames()[before:]
+		input := map[string]interface{}{"version": v, "entries": size, "error": fmt.Sprint(err), "batch_frames_written": len(frames)}
+		o.Count(kind)
+		idx := -1
+		if !o.Search {
+			idx = o.Case(kind+"/guard", true, fmt.Sprintf("CSessionBatchGuard %d %s", size, hlib.Bool(refused)))
+		}
+		if size >= 1<<16 {
+			if !refused {
+				o.Violate(idx, "live-batch-too-many", "", fmt.Sprintf("a batch of %d entries was not refused with ErrTooManyStmts (error: %v): the statement count of BATCH is a [short]", size, err), input)
+			}
+			for _, f := range frames {
+				if _, derr := decodeRequest(f, node.Snappy{}.Decode); derr != nil {
+					o.Violate(idx, "live-malformed-frame", "", fmt.Sprintf("a batch of %d entries went out as a malformed BATCH frame of %d bytes: %v; first bytes % x", size, len(f), derr, head(f, 24)), input)
+				} else {
+					o.Violate(idx, "live-batch-too-many", "", fmt.Sprintf("a BATCH frame was written for a batch of %d entries", size), input)
+				}
+			}
+			continue
+		}
+		if err != nil || len(frames) != 1 {
+			o.Violate(idx, "live-call-failed", "", fmt.Sprintf("v%d batch of %d entries: error %v, %d BATCH frames", v, size, err, len(frames)), input)
+			continue
+		}
+		m, derr := decodeRequest(frames[0], node.Snappy{}.Decode)
+		if derr != nil {
+			o.Violate(idx, "live-malformed-frame", "", fmt.Sprintf("batch of %d entries: %v", size, derr), input)
+			continue
+		}
+		want := &gocql.VerifC03Request{Kind: gocql.VerifC03Batch, BatchType: 1, Consistency: uint16(gocql.One), Statements: make([]gocql.VerifC03Stmt, size)}
+		for i := range want.Statements {
+			want.Statements[i].Statement = del
+		}
+		if got, w := m.canon(), asked(want, false, 0).canon(); got != w {
+			o.Violate(idx, "live-decoded-differs", "", fmt.Sprintf("batch of %d entries: got %s want %s", size, trunc(got, 500), trunc(w, 500)), input)
+		}
+		if !o.Search {
+			o.Case(kind+"/batch", true, fmt.Sprintf("CBuild %d false false %d %s (OBytes %s)", v, m.stream, requestTerm(fromDecoded(m)), bytesTerm(frames[0])))
+		}
 	}
 }
